@@ -132,16 +132,20 @@ def tlc_corpora_to_scenarios(behs, rnd, per_corpus, name, with_shards=False, ns=
         sobjs = []
         nxt = max(o["id"] for o in objs) + 1
         for o in objs:
-            so = dict(id=o["id"], owner=1 + o["id"] % 3, cs=1 + o["id"] % 5, epoch=0, size=0,
+            so = dict(id=o["id"], owner=1 + o["id"] % 3, cs=1 + o["id"] % 5, epoch=o["id"] % 2, size=10 * (o["id"] % 3),
                       attrs=[[a["k"], bstr(a["str"])] for a in o["attrs"]])
             if with_shards:
                 so["shards"] = sorted(o["shards"])
             if not o["avail"]:
-                how = (o["id"] + ci) % 3
+                how = (o["id"] + ci) % 5
                 if how == 0:
                     so["fate"] = "gc"
                 elif how == 1:
                     so["exp"] = 12           # put at epoch 10, queried at epoch 20
+                elif how == 2:
+                    so["fate"] = "del"       # physically deleted from every shard holding a copy
+                elif how == 3:
+                    so["fate"] = "gcdel"
                 else:
                     ts = dict(id=nxt, typ="TOMBSTONE", target=o["id"], owner=1, cs=1, epoch=0, size=0)
                     if with_shards:
@@ -158,6 +162,8 @@ def tlc_corpora_to_scenarios(behs, rnd, per_corpus, name, with_shards=False, ns=
         rnd.shuffle(uq)
         queries = [dict(fs=[dict(k=f["k"], op=f["op"], v=bstr(f["val"])) for f in q["fs"]], attrs=q["attrs"], ns=list(ns))
                    for q in uq[:per_corpus]]
+        for k in ("$Object:payloadLength", "$Object:creationEpoch"):     # numeric walks over header fields
+            queries.append(dict(fs=[dict(k=k, op="GE", v="0")], attrs=[k], ns=list(ns)))
         scn = dict(name="%s%d" % (name, ci), put_epoch=10, cur_epoch=20, pool_seed=2000 + ci, objs=sobjs, queries=queries)
         if with_shards:
             scn["nshards"] = 2
